@@ -28,7 +28,7 @@ def run(patch):
         r = subprocess.run(["/venv/bin/python", "-c", code], capture_output=True, text=True)
         if r.returncode:
             return patch, "NORMALISE-FAILED " + r.stderr[-400:]
-        r = subprocess.run(["/venv/bin/python", "-m", "pytest", "-q", "-p", "no:cacheprovider", "--timeout=900"], cwd=d, capture_output=True, text=True,
+        r = subprocess.run(["/venv/bin/python", "-m", "pytest", "-q", "-p", "no:cacheprovider", "--timeout=900"] + os.environ.get("NF_TESTS", "").split(), cwd=d, capture_output=True, text=True,
                            env=dict(os.environ, PYTHONDONTWRITEBYTECODE="1"))
         tail = [l for l in r.stdout.splitlines() if " passed" in l or " failed" in l or " error" in l][-1:] or [r.stdout[-200:]]
         fails = [l for l in r.stdout.splitlines() if l.startswith("FAILED") or l.startswith("ERROR")][:5]
